@@ -321,3 +321,17 @@ Lemma httpapi_client_total st v : exists c e, client st v = (c, e).
 Proof. destruct (client st v) as [c e]. now exists c, e. Qed.
 Lemma httpapi_client_bad_body st v : v = VFail \/ v = VNoCode \/ v = VNotNum -> client st v = (0, true).
 Proof. intros [-> | [-> | ->]]; reflexivity. Qed.
+
+(* the complete body bytes computed in the correspondence run are [wire] of the theorems, with the
+   marshaller instantiated by the bytes encoding/json produced for this envelope *)
+Lemma wire_exec_wire mb b : wire_exec mb b = wire (fun _ => mb) b.
+Proof. destruct b as [[|c cb] m|t]; reflexivity. Qed.
+
+(* JSONP, on the executable side: for every payload answered through jsonHandler the body with a
+   callback is callback ( plain body ) byte for byte *)
+Lemma wire_exec_jsonp g cb p mb : cb <> [] -> via_json_handler p = true ->
+  wire_exec mb (body (respond g cb p)) = cb ++ [40%N] ++ wire_exec mb (body (respond g [] p)) ++ [41%N].
+Proof.
+  intros Hcb Hp. rewrite !wire_exec_wire.
+  destruct (jsonp_wrap (fun _ => mb) g cb p Hcb Hp) as (_ & _ & _ & _ & H). exact H.
+Qed.
